@@ -189,9 +189,116 @@ class PrintParse(Stream):
                 yield {"doc": case["doc"], "level": lv, "width": w}
 
 
+class Clone(Stream):
+    """The observation point scope.clone(): clone() prints the formatted tree at attributes level 3 and parses it again, so
+    every parameter of the master - deprecated ones included, which only level 3 prints - comes back with its value.  Masters
+    without .multiple objects (their collapse is C09's subject), values without '$'.  Oracle only."""
+    name = "clone"
+    cluster = "Parse"
+    LEAVES = [("int", ["1", "-3", "None"]), ("str", ["x", '"two words"', '"a#b"', "None"]), ("bool", ["True", "no", "None"]),
+              ("strings", ["a b", '"p q" r', "None"]), ("float", ["1.5", "None"]), ("choice", ["*u v", "u *v"]), ("words", ["k l"]),
+              ("ints", ["1 2", "None"]), ("qstr", ['"q  s"'])]
+    NAMES = ["a", "old_name", "s.b", "s.legacy.flag", "t.u.v", "t.w", "z"]
+
+    def __init__(self, ctx):
+        super().__init__(ctx)
+        self.fp = import_freephil()
+
+    def corpus(self):
+        return [{"defs": [["a", "int", "1", False], ["old_name", "int", "5", True], ["s.b", "str", "x", False],
+                          ["s.legacy.flag", "strings", "y z", True]], "braces": True},
+                {"defs": [["old_name", "bool", "True", True]], "braces": False}]
+
+    def cases(self, rng, tier):
+        for _ in range(80 if tier == "quick" else 1500):
+            names = [n for n in self.NAMES if rng.random() < 0.6] or ["a"]
+            defs = []
+            for n in names:
+                ty, vals = rng.choice(self.LEAVES)
+                defs.append([n, ty, rng.choice(vals), rng.random() < 0.4])
+            yield {"defs": defs, "braces": rng.random() < 0.5}
+
+    @staticmethod
+    def text(case):
+        out = []
+        if case["braces"]:
+            # group by first component, nested braces
+            def emit(prefix, items, ind):
+                seen = []
+                for n, ty, v, dep in items:
+                    head = n.split(".")[0]
+                    if head in seen:
+                        continue
+                    seen.append(head)
+                    same = [(m.split(".", 1)[1], t2, v2, d2) for m, t2, v2, d2 in items if m.split(".")[0] == head and "." in m]
+                    if same:
+                        out.append("%s%s {" % (ind, head))
+                        emit(prefix + head + ".", same, ind + "  ")
+                        out.append("%s}" % ind)
+                    else:
+                        out.append("%s%s = %s" % (ind, head, v))
+                        out.append("%s  .type = %s" % (ind, ty))
+                        if dep:
+                            out.append("%s  .deprecated = True" % ind)
+            emit("", [tuple(d) for d in case["defs"]], "")
+        else:
+            for n, ty, v, dep in case["defs"]:
+                out.append("%s = %s" % (n, v))
+                out.append("  .type = %s" % ty)
+                if dep:
+                    out.append("  .deprecated = True")
+        return "\n".join(out) + "\n"
+
+    def flatten(self, ext, path=""):
+        res = {}
+        for name, value in sorted(ext.__dict__.items()):
+            if name.startswith("__"):
+                continue
+            if isinstance(value, self.fp.scope_extract):
+                res.update(self.flatten(value, path + name + "."))
+            else:
+                if isinstance(value, list) and value and hasattr(value[0], "quote_token"):
+                    value = [(w.value, w.quote_token) for w in value]      # .type = words: the word objects themselves
+                res[path + name] = repr(value)
+        return res
+
+    def impl(self, case):
+        try:
+            master = self.fp.parse(self.text(case))
+            original = master.extract()
+        except (RuntimeError, self.fp.Sorry) as e:
+            return ["refused", exc_class(e)]
+        want = self.flatten(original)
+        try:
+            got = self.flatten(master.clone(python_object=original))
+        except (RuntimeError, self.fp.Sorry) as e:
+            return ["clone-refused", str(e)[:120]]
+        return ["ok", want, got]
+
+    def requests(self, case, o):
+        return []
+
+    def model(self, case, replies, o):
+        return o
+
+    def prop(self, case, o):
+        if o[0] == "clone-refused":
+            return "clone() of the master's own extraction is refused: %s" % o[1]
+        if o[0] == "ok" and o[1] != o[2]:
+            miss = [k for k in o[1] if k not in o[2]]
+            if miss:
+                return "parameter(s) %s missing from clone()" % ", ".join(miss)
+            k = [k for k in o[1] if o[1][k] != o[2].get(k)][0]
+            return "clone(): %s was %s, comes back as %s" % (k, o[1][k], o[2].get(k))
+        return None
+
+    def tag(self, case, o):
+        return o[0]
+
+
 SPEC = {
     "clusters": ["Parse"],
-    "streams": [PrintParse],
+    "streams": [PrintParse, Clone],
     "rule": "abstract trees with rich content (every built-in type with constructor arguments, long/hyphenated/tabbed/whitespace-only/multi-line "
             "help texts, up to 16 words per value incl. multi-line quoted words, dotted names, '!', deprecated) rendered by the layout sampler, "
             "x attributes level in {0,2,3} x print width in {None,40..120,100000}; freephil and the model each do parse -> print -> parse -> print; "
